@@ -8,6 +8,7 @@ import BezierVerif.Model.MinDist
 import BezierVerif.Model.Extremes
 import BezierVerif.Model.Nodelist
 import BezierVerif.Model.Sample
+import BezierVerif.Model.Fit
 import BezierVerif.Gen.Box
 
 namespace ModelDriver
@@ -135,6 +136,30 @@ partial def parsePairs2 : List String → Option (List (ℚ × ℚ))
       some ((a, b) :: more)
   | _ => none
 
+/-- tape entries: `D deg k` then k × (8 coordinates, ratio, split) -/
+partial def parseTape : List String → Option (List (Fit.CallData QP ℚ))
+  | [] => some []
+  | "D" :: deg :: k :: rest => do
+      let k ← k.toNat?
+      let rec attempts (n : Nat) (toks : List String) : Option (List (Fit.Attempt QP ℚ) × List String) :=
+        match n with
+        | 0 => some ([], toks)
+        | n + 1 =>
+          match toks with
+          | a :: b :: c :: d :: e :: f :: g :: h :: ratio :: sp :: more => do
+              let xs ← [a, b, c, d, e, f, g, h].mapM parseRat
+              let ratio ← parseRat ratio
+              let sp ← sp.toNat?
+              let (as, r) ← attempts n more
+              some (⟨[(xs[0]!, xs[1]!), (xs[2]!, xs[3]!), (xs[4]!, xs[5]!), (xs[6]!, xs[7]!)], ratio, sp⟩ :: as, r)
+          | _ => none
+      let (as, r) ← attempts k rest
+      let more ← parseTape r
+      some (⟨deg == "1", as⟩ :: more)
+  | _ => none
+
+def showBez (b : List QP) : String := "C " ++ showRats (b.flatMap fun p => [p.1, p.2])
+
 def handle (name : String) (args : List String) : String :=
   match name with
   | "polygon.signedArea" =>
@@ -250,6 +275,21 @@ def handle (name : String) (args : List String) : String :=
       | some ps => "ok " ++ showSegs (Sample.joinLines (ps.map fun p => (⟨p.1, p.2⟩ : Pt ℚ)))
       | none => "bad-args"
     | none => "bad-args"
+  | "fit" =>
+    -- fit <fixed|pinned> <budget> <npts> x y ... | tape
+    match args with
+    | acc :: budget :: npts :: rest =>
+      match budget.toNat?, npts.toNat? with
+      | some budget, some n =>
+        match ((rest.take (2 * n)).mapM parseRat) >>= parsePairs2 ∘ (fun l => l.map showRat), parseTape ((rest.drop (2 * n)).drop 1) with
+        | some pts, some tape =>
+          let rb := if acc == "pinned" then Fit.budgetPinned else Fit.budgetFixed
+          match Fit.fit rb 200 pts false false budget tape with
+          | some (out, left) => "ok " ++ toString left.length ++ " " ++ " ".intercalate (out.map showBez)
+          | none => "none"
+        | _, _ => "bad-args"
+      | _, _ => "bad-args"
+    | _ => "bad-args"
   | _ => "nomodel"
 
 end ModelDriver
